@@ -46,6 +46,17 @@ def render(i, c):
                 b"static unsigned long g" + n + b" = " + s + b";\n"
                 b"static void f" + n + b"(void) { printf(\"R " + n + b" %lu %d %d %lu %d\\n\", (unsigned long)(" + s +
                 b"), (int)sizeof(" + s + b"), (typeof(" + s + b"))-1 < 0, g" + n + b", PP" + n + b"); }\n")
+    if c["kind"] == "mid":
+        # twice the distance from the lower neighbour in ulps (hex constants are exact): 0 / 2 in the format, 1 in a wider type
+        lo, ulp = bytes(c["lower"]), bytes(c["ulp"])
+        ty = {4: b"float", 8: b"double"}.get(c["size"])
+        probe = b"(long)(((%s) - (" + lo + b")) / (" + ulp + b") * 2)"
+        if ty:                                       # (chibicc cannot initialise a static long double: C05's subject)
+            return (b"static " + ty + b" g" + n + b" = " + s + b";\n"
+                    b"static void f" + n + b"(void) { printf(\"R " + n + b" %ld %d %ld\\n\", " + probe % s + b", (int)sizeof(" + s +
+                    b"), " + probe % (b"g" + n) + b"); }\n")
+        return (b"static void f" + n + b"(void) { long double v = " + s + b"; printf(\"R " + n + b" %ld %d %ld\\n\", " + probe % s +
+                b", (int)sizeof(" + s + b"), " + probe % b"v" + b"); }\n")
     if c["kind"] == "flt":
         return (b"static double g" + n + b" = " + s + b";\n"
                 b"static void f" + n + b"(void) { printf(\"R " + n + b" %ld %d %ld\\n\", (long)((" + s +
@@ -80,7 +91,7 @@ def render(i, c):
 def expect(i, c):
     if c["kind"] in ("int", "chr"):
         return "R %d %s %d %d %s 1" % (i, c["val"], c["size"], c["neg"], c["val"])
-    if c["kind"] == "flt":
+    if c["kind"] in ("flt", "mid"):
         return "R %d %d %d %d" % (i, c["val"], c["size"], c["val"])
     if c["kind"] == "str":
         b = bytes(c["bytes"])
@@ -101,7 +112,7 @@ def sig_of(c, exp, got):
     """classification = root-cause class: kind, prefix/base, item kinds, which observable differs"""
     e, g = exp.split(), (got or "").split()
     k = c["kind"]
-    if k == "flt":
+    if k in ("flt", "mid"):
         names = ["", "", "value", "size", "static-init-value"]
     elif k in ("int", "chr"):
         names = ["", "", "value", "size", "sign", "static-init-value", "pp-if-value"]
@@ -115,6 +126,9 @@ def sig_of(c, exp, got):
         if j >= len(g) or e[j] != g[j]:
             what = names[j] if j < len(names) else "field%d" % j
             break
+    if k == "mid":
+        return "mid:%s:%s:%s:%s" % ("float" if c["fmt"] == "f" else "double", bytes(c["suffix"]).decode().lower() or "none",
+                                    {"eq": "on-midpoint", "up": "above-midpoint", "dn": "below-midpoint"}[c["side"]], what)
     if k == "flt":
         return "flt:%s:%s:%s" % ("hex" if c["hex"] else "dec", bytes(c["suffix"]).decode().lower() or "none", what)
     if k == "int":
@@ -355,12 +369,14 @@ def run(ctx):
     tree = ctx.build()
     ctx.phase("build done")
     import c11_cp
-    outs = {k: os.path.join(ctx.scratch, k + ".ndjson") for k in ("int", "str", "cat", "utf", "flt")}
+    outs = {k: os.path.join(ctx.scratch, k + ".ndjson") for k in ("int", "str", "cat", "utf", "flt", "mid")}
     jobs = [
         lambda: tlc_gen(ctx, "LitInt", "LitInt.cfg", outs["int"], "convert_pp_int's ladder (Level I) differs from 6.4.4.1 (Level A)", Emit=True),
         lambda: tlc_gen(ctx, "LitStr", "LitStr.cfg", outs["str"], "character constant / string literal design differs from 6.4.4.4 / 6.4.5",
                         Emit=True, Small=q, Fams='{"chr","str","seq"}'),
         lambda: tlc_gen(ctx, "LitFlt", "LitFlt.cfg", outs["flt"], "floating constant model is inconsistent", workers=2, Emit=True),
+        lambda: tlc_gen(ctx, "LitMid", "LitMid.cfg", outs["mid"], "floating constants next to a rounding midpoint: one rounding per type", workers=3, Emit=True),
+        lambda: control(ctx, "LitMid", "LitMid.cfg", "via-ldouble"),
         lambda: control(ctx, "LitInt", "LitInt.cfg", "skip-unsigned-hex"),
         lambda: control(ctx, "LitInt", "LitInt.cfg", "l-ignored-hex"),
         lambda: control(ctx, "LitStr", "LitStr.cfg", "no-widen", Small=True, Fams='{"cat"}'),
@@ -369,7 +385,7 @@ def run(ctx):
     cat = lambda: tlc_gen(ctx, "LitStr", "LitStr.cfg", outs["cat"], "concatenation of adjacent string literals differs from 6.4.5p5",
                           Emit=True, Small=q, Fams='{"cat"}')
     more = c11_cp.tlc_jobs(ctx, outs["utf"])
-    jobs = [jobs[1], cat, jobs[0], more[0], jobs[2], more[3]] + jobs[3:] + [more[1], more[2], more[4], more[5]]    # generators first
+    jobs = [jobs[1], cat, jobs[0], more[0], jobs[3], jobs[2], more[3]] + jobs[4:] + [more[1], more[2]] + more[4:]    # generators first
     errs = []
 
     def guarded(j):
@@ -406,6 +422,13 @@ def run(ctx):
     sel_f = vt.subsample(flts, ctx.seed, 4 if q else 1)
     ctx.sample(dict(kind="flt", literal=bytes(sel_f[len(sel_f) // 2]["src"]).decode(), expected=expect(0, sel_f[len(sel_f) // 2])))
     compare(ctx, tree, sel_f, "flt", first=400000, nontrivial=lambda c: c["val"] != 0)
+    mids = dedupe(vt.read_ndjson(outs["mid"]))
+    if len(mids) < 3000:
+        raise Infra("LitMid wrote only %d cases" % len(mids))
+    sel_m = vt.subsample(mids, ctx.seed, 4 if q else 1)
+    m0 = next(c for c in sel_m if c["side"] != "eq" and not c["wide"] and len(c["src"]) < 80)
+    ctx.sample(dict(kind="mid", literal=bytes(m0["src"]).decode(), lower=bytes(m0["lower"]).decode(), expected=expect(0, m0)))
+    compare(ctx, tree, sel_m, "mid", first=500000, per=150)
     run_diag(ctx, tree, diags)
     run_headers(ctx, tree)
     ctx.phase("literal replay done")
@@ -425,7 +448,7 @@ def run(ctx):
     return ctx.finish(
         rule="case = one literal (or one run of code points in one literal / one identifier set) written by LitInt/LitStr/LitUtf.tla, compiled by the tree's chibicc and compared on value, sizeof, signedness and object bytes, or one code-point row replayed on unicode.c, or one re-encoding (line ends, BOM, splice position) of a program of such literals; distinct = distinct source text per replay mode; non-trivial = integer magnitude > 1, every other case",
         exhaustive=not q,
-        extra=dict(int_cases=len(ints), chrstr_cases=len(strs), flt_cases=len(flts), flt_replayed=len(sel_f), diag_cases=len(diags), int_replayed=len(sel_i), chrstr_replayed=len(sel_s)))
+        extra=dict(int_cases=len(ints), chrstr_cases=len(strs), flt_cases=len(flts), flt_replayed=len(sel_f), mid_cases=len(mids), mid_replayed=len(sel_m), diag_cases=len(diags), int_replayed=len(sel_i), chrstr_replayed=len(sel_s)))
 
 
 def replay(ctx, path):
@@ -439,6 +462,8 @@ def replay(ctx, path):
     import c11_cp
     if c.get("kind") in ("uc", "ucbad"):
         c11_cp.replay_uc(ctx, tree, c)
+    elif c.get("kind") == "longfile":
+        c11_cp.replay_long(ctx, tree, c)
     elif c.get("kind") == "diag":
         run_diag(ctx, tree, [c])
     elif c.get("kind") == "hdr":
